@@ -84,6 +84,8 @@ func Main() {
 		os.Exit(driveMain(os.Args[2:]))
 	case "replay":
 		os.Exit(replayMain(os.Args[2:]))
+	case "fuzzsum":
+		os.Exit(fuzzSumMain(os.Args[2:]))
 	default:
 		fmt.Fprintln(os.Stderr, "unknown sub-command", os.Args[1])
 		os.Exit(2)
@@ -608,6 +610,12 @@ func (d *driver) conclude(nshards int) int {
 		var rp any
 		if json.Unmarshal(b, &rp) == nil {
 			a.Info["race_detector_pass_over_concurrent_phases"] = rp
+		}
+	}
+	if b, err := os.ReadFile(filepath.Join(d.work, "fuzz", "summary.json")); err == nil {
+		var fs any
+		if json.Unmarshal(b, &fs) == nil {
+			a.Info["coverage_guided_stage"] = fs
 		}
 	}
 	d.writeEvidence(nshards, len(newV), knownV)
